@@ -47,6 +47,16 @@ func (o *Obl) query(withGoal bool) string {
 			sb.WriteString("(assert " + f.s + ")\n")
 		}
 	}
+	var onames []string
+	for name := range g.opaqueDefs {
+		onames = append(onames, name)
+	}
+	sortStrings(onames)
+	for _, name := range onames {
+		if g.revealed[name] && g.opaqueDefs[name] != "" {
+			sb.WriteString("(assert " + g.opaqueDefs[name] + ")\n")
+		}
+	}
 	for _, a := range g.axiomsCache {
 		sb.WriteString("(assert " + a + ")\n")
 	}
